@@ -16,4 +16,5 @@ Definition run_case (e : Z) (a : list Z) (b : list bytes) : list Z :=
   else if (1200 <=? e) && (e <? 1210) then entry_ecu e a b
   else if e =? 5018 then (let v := nth 0 a 0 in if (v =? 2006) || (v =? 2013) || (v =? 2020) then [0] else [2; 2])
   else if e =? 5015 then [1; 1; 1; 0]  (* Client.__enter__/__exit__: open once, close once on every exit path *)
+  else if e =? 5016 then [0]           (* a client on the real QueueConnection with stale frames queued: behaves as a fresh client (no problem found) *)
   else [-999].
